@@ -50,7 +50,7 @@ func gen(t *rapid.T) Case {
 		Base: wm.GenSet(t, wm.GenConfig{MaxPoints: 4, MaxPaths: 2, MaxLoops: 1, MaxAreas: 1, MaxRelations: 2,
 			Namespaces: []string{string(b6.NamespaceOSMNode), string(b6.NamespaceOSMWay), string(b6.NamespaceOSMRelation), "diagonal.works/ns/test"},
 			TagKeys:    allKeys(), TagValues: values}),
-		BaseKind: rapid.SampledFrom([]string{"basic", "basic", "basic", "mutable", "overlay", "overlay", "compact"}).Draw(t, "basekind"),
+		BaseKind: rapid.SampledFrom([]string{"basic", "basic", "basic", "basic", "basic", "mutable", "mutable", "mutable", "overlay", "overlay", "overlay", "overlay", "overlay", "compact"}).Draw(t, "basekind"),
 	}
 	n := rapid.IntRange(1, 25).Draw(t, "nops")
 	nextNew := 0
